@@ -2,7 +2,8 @@
 import numpy as np
 
 RULE = ("K: BrushConstraint2D.__call__ (public; axis 0/1/2, background index 0 and 1) on 2-D designs of 3..14 cells per side "
-        "(quick: <= 10) with circular_brush of diameter 3, 5, 7 (and 4.2, 1): white-noise designs, smooth blobs, stripes "
+        "(quick: <= 10) with circular_brush of diameter 3, 5, 7 and the non-integer 2.5, 3.5, 4.2, 4.5, 5.5 (and 1); circular_brush itself is "
+        "compared with the model and with its definition (odd size, point-symmetric, centre set) for 13 diameters: white-noise designs, smooth blobs, stripes "
         "thinner than the brush, integer-valued and +-1 designs (exact ties in every comparison), constant designs, designs smaller than the brush. The Lean "
         "model runs the same loop first (it reports the number of iterations, the case taken in each one and whether an "
         "iteration made no progress — the hypothesis `Progress` of the theorems); the final solid region is compared exactly. "
@@ -37,8 +38,39 @@ def unbits(s, shape):
     return np.frombuffer(s.encode(), dtype=np.uint8).reshape(shape) == ord("1")
 
 
+def frac(diam):
+    from fractions import Fraction
+    return Fraction(str(diam))
+
+
 def brush_of(diam):
+    """the brush the property speaks about, from the documented definition (NOT the implementation): square of side
+    ceil(diameter) rounded up to odd, cell set iff its distance to the centre is <= diameter / 2 (exact rationals)"""
+    import math
+    f = frac(diam)
+    s = math.ceil(f)
+    if s % 2 == 0:
+        s += 1
+    c = (s - 1) // 2
+    return np.array([[4 * ((a - c) ** 2 + (b - c) ** 2) <= f * f for b in range(s)] for a in range(s)], dtype=bool).reshape(s, s)
+
+
+def impl_brush_array(diam):
     return np.asarray(J()["circular_brush"](diam)).astype(bool)
+
+
+def brush_fails(diam):
+    """circular_brush must return an odd-sized, point-symmetric mask containing its centre, equal to the definition"""
+    b = impl_brush_array(diam)
+    if b.ndim != 2 or b.shape[0] != b.shape[1] or b.shape[0] % 2 == 0:
+        return f"circular_brush({diam}) has shape {b.shape}: not an odd-sized square, the brush has no centre pixel"
+    if not np.array_equal(b, b[::-1, ::-1]):
+        return f"circular_brush({diam}) is not point-symmetric"
+    if not b[b.shape[0] // 2, b.shape[0] // 2]:
+        return f"circular_brush({diam}) does not contain its centre"
+    if not np.array_equal(b, brush_of(diam)):
+        return f"circular_brush({diam}) differs from the disc of that diameter: {bits(b)} vs {bits(brush_of(diam))}"
+    return None
 
 
 def module(shape3, axis, diam, bg):
@@ -226,6 +258,8 @@ def parse_gen(rep, shape):
 def property_fails(inp, model=None):
     """evaluate the property on the real code. If the model predicts that the loop makes no progress the real code is not
     run in-process (it would not return)."""
+    if inp.get("op") == "brush":
+        return brush_fails(inp["diam"])
     design = np.asarray(inp["design"], dtype=np.float64).reshape(inp["shape"])
     brush = brush_of(inp["diam"])
     if model is not None and model["status"] != "done":
@@ -265,6 +299,17 @@ def _run(ctx):
         got = np.asarray(j["dilate"](j["jnp"].asarray(img), j["jnp"].asarray(br)))
         ctx.case(nontrivial=("dil", bits(img), bits(br)), op="dilate", brush=br.shape[0])
         ctx.expect_equal("dilate", {"img": bits(img), "brush": bits(br), "shape": list(img.shape)}, bits(got), rep)
+    # ---- circular_brush itself: integer and NON-INTEGER diameters (the odd-size rounding only matters for the latter)
+    diams = [1, 2, 2.5, 3, 3.5, 4, 4.2, 4.5, 5, 5.5, 6.5, 7, 7.5] + ([1.5, 8.5, 9, 9.5, 3.25, 5.75, 6, 8] if ctx.thorough else [])
+    reps = ctx.driver.ask_many([f"brush {frac(x).numerator} {frac(x).denominator}" for x in diams])
+    for x, rep in zip(diams, reps):
+        b = impl_brush_array(x)
+        ctx.case(nontrivial=("brush", x), op="circular_brush", diam=x)
+        ctx.expect_equal("circular_brush", {"op": "brush", "diam": x}, f"{b.shape[0]} {bits(b)}", rep)
+        ctx.impl_property_evals += 1
+        d = brush_fails(x)
+        if d:
+            ctx.violation({"op": "brush", "diam": x}, d)
     # ---- the generator
     hi = ctx.scale(10, 14)
     confs = []
@@ -275,6 +320,8 @@ def _run(ctx):
                 continue
             confs.append((shape, diam, (si + len(confs) + ctx.seed) % 3, [None, "Si"][(si + len(confs)) % 2]))
     confs += [((5, 5), 4.2, 2, None), ((4, 4), 1, 1, "Si")]
+    # non-integer diameters whose ceiling is even (3.5, 5.5: size must be rounded UP to odd) and odd (2.5, 4.5), always
+    confs += [((7, 8), 3.5, (ctx.seed + 1) % 3, None), ((8, 8), 5.5, ctx.seed % 3, "Si"), ((6, 6), 2.5, 2, "Si"), ((7, 6), 4.5, 0, None)]
     kinds = ["noise", "blob", "stripes", "ties", "pm1", "const"] + (["noise", "blob", "blob", "pm1"] if ctx.thorough else [])
     todo = []
     for (shape, diam, axis, bg) in confs:
@@ -330,7 +377,8 @@ def model_of(ctx, inp):
 
 
 def search(ctx, hints):
-    cands = [h for h in hints if isinstance(h, dict) and "design" in h]
+    cands = [h for h in hints if isinstance(h, dict) and ("design" in h or h.get("op") == "brush")]
+    cands += [{"op": "brush", "diam": x} for x in (1, 2.5, 3, 3.5, 4.5, 5, 5.5, 7, 7.5)]
     for shape in [(3, 3), (4, 4), (5, 5), (6, 6), (7, 7), (8, 8)]:
         for diam in (3, 5):
             for kind in ("noise", "blob", "stripes", "ties", "noise", "blob"):
@@ -338,6 +386,13 @@ def search(ctx, hints):
                 cands.append({"shape": list(shape), "diam": diam, "axis": 2, "bg": None, "kind": kind, "design": design.ravel().tolist()})
     try:
         for c in cands:
+            if c.get("op") == "brush":
+                ctx.impl_property_evals += 1
+                d = brush_fails(c["diam"])
+                if d:
+                    ctx.violation(c, d)
+                    return
+                continue
             m = model_of(ctx, c)
             if m["status"] in ("unsupported", "error"):
                 continue
@@ -351,6 +406,8 @@ def search(ctx, hints):
 
 
 def replay(ctx, inp):
+    if inp.get("op") == "brush":
+        return brush_fails(inp["diam"])
     m = model_of(ctx, inp)
     if m["status"] in ("unsupported", "error"):
         return None
